@@ -4,7 +4,7 @@
 (* shared memory.                                                             *)
 (*                                                                            *)
 (*   bmt.go   Hasher.Write         -> Write       (copy + `go processSection`) *)
-(*            Hasher.Hash          -> HashEmpty / HashStart / Receive          *)
+(*            Hasher.Hash          -> HashEmpty / HashStart, result by Send    *)
 (*            processSection       -> SecHash                                  *)
 (*            writeNode            -> Store, Toggle, Combine, Send             *)
 (*            writeFinalNode       -> Fin, FinToggle, FinCombine, Send         *)
@@ -246,9 +246,6 @@ Spec == Init /\ [][Next]_vars
 (***************************************************************************)
 (* Properties.                                                             *)
 (***************************************************************************)
-\* length hashed in the current use
-LenOf(u) == usr[u].size
-
 \* the result equals the recursive definition
 Correct == \A u \in Users : usr[u].pc = "got" =>
               usr[u].digest = K(usr[u].span,
